@@ -192,6 +192,8 @@ Section Aligned.
       destruct e; [exact IHc1|]. destruct (N.eqb (x_status x1) 0); [now apply IHc2 | now apply IHc3].
     - specialize (IHc x Hnl Hx). destruct (exec line_ops c x) as [x1 e]. cbn [fst] in IHc.
       exact IHc.
+    - change (op_nest line_ops s x) with (nest_stub s x). unfold nest_stub. cbn [fst].
+      apply x_ok_with_status. exact Hx.
   Qed.
 
   (* a command returned by the parse phase is one the parser produced *)
@@ -672,6 +674,10 @@ Section Swap.
       pose proof (SX_status _ _ Hy) as Hs.
       destruct HS as [H1 _]. destruct Hy as [_ [G2 [G3 G4]]].
       rewrite H1, Hs. split; [|reflexivity]. repeat split; cbn; assumption.
+    - (* CNest: not entered at level 0 *)
+      change (op_nest line_ops s x) with (nest_stub s x).
+      change (op_nest line_ops s x') with (nest_stub s x'). unfold nest_stub. cbn [fst snd].
+      intros _. split; [now apply SX_with_status | reflexivity].
   Qed.
 
   Lemma pull_loop_len (fuel : nat) sts fed src i off eof :
